@@ -63,7 +63,9 @@ CasesTwoNotNull ==
 
 \* (iii) TIMESTAMP assembled from up to 7 groups
 PartTexts == {<<50, 48, 50, 49>>, <<48>>, <<49>>, <<49, 50>>, <<49, 51>>, <<51, 49>>, <<51, 50>>, <<50, 52>>, <<54, 48>>, <<53, 57>>, <<45, 49>>, <<120>>, <<74, 117, 110>>, <<106, 117, 108, 121>>,
-              U32WrapText, MaxPlus1Text, <<57, 57, 57>>, <<49, 50, 51, 52, 53, 54, 55>>}
+              U32WrapText, MaxPlus1Text, <<57, 57, 57>>, <<49, 50, 51, 52, 53, 54, 55>>,
+              \* fractions around the limits: 1999 / 2000 ms, 4294968 ms (x 1000 leaves 32 bits), 2147484 ms (x 1000 leaves 31 bits), 1999999 / 2000000 us, nanoseconds
+              <<49, 57, 57, 57>>, <<50, 48, 48, 48>>, <<52, 50, 57, 52, 57, 54, 56>>, <<50, 49, 52, 55, 52, 56, 52>>, <<49, 57, 57, 57, 57, 57, 57>>, <<50, 48, 48, 48, 48, 48, 48>>, <<49, 50, 51, 52, 53, 54, 55, 56, 57>>}
 PartStates == {NoGroup} \cup {G(x) : x \in PartTexts}
 BaseTs == <<G(<<50, 48, 50, 49>>), G(<<50>>), G(<<50, 56>>), G(<<50, 51>>), G(<<53, 57>>), G(<<53, 57>>), G(<<57, 57, 57>>)>>     \* 2021-02-28 23:59:59.999
 TsCol(n, micro, d) == [Multi([i \in 1..n |-> Ref("p", i)], "ts", "") EXCEPT !.micro = micro, !.def = d]
